@@ -141,6 +141,28 @@ CLAIMS = {
              'against the tool\'s own table. trusted: Coq kernel+vm_compute, tr_decoders.py, DecoderDSL.lnames, the enum '
              'iteration rule (validated for every class each run)',
         technique='Coq proof over generated enum/serializer tables + correspondence', ref='DESIGN.md §5 C11'),
+    'C07': dict(
+        text='Coq theorems: c07_sweep_safe (over the regenerated rows: every indexed lookup is guarded by a length test, every '
+             'errno-name lookup by a membership test) and c07_row_total (hence for EVERY row, EVERY window context - no lookups, '
+             'fewer than the call has paths, unknown string ids, any tables, any host - and all words whose enum-typed fields are '
+             'members, rendering succeeds), c07_missing_lookup_is_empty, c07_unknown_string_is_empty, c07_string_without_data, '
+             'c07_vmfault_total; closed under the global context. Differential: every decoder x 0/1/2/3/7 lookups, composite '
+             'windows, and semantic streams with every prefix dropped through traces()/formatted_*().',
+        note='trusted: Coq kernel+vm_compute; tr_decoders.py + DecoderDSL.render (validated string-exactly); the machine, the name '
+             'learner and the composite decoders are the hand models of C04/C05/C20 (total Gallina functions); line formatting '
+             'is exercised differentially', technique='Coq proof (static guard analysis lifted by induction) + correspondence',
+        ref='DESIGN.md §5 C07'),
+    'C18': dict(
+        text='The host\'s errno/signal/socket tables are an explicit parameter H of the rendering model. Coq theorems: '
+             'c18_host_free_rows (rows that do not read H render identically on every host), c18_only_through_tables (two hosts '
+             'with equal tables give equal output for every row), and c18_refuted: the full statement is FALSE of the faithful '
+             'model - witness BSC_read with END errno 35 under Linux vs Darwin tables (finding F17, recorded in '
+             'known_findings.txt, not repaired: embedding Darwin\'s tables is not a small patch). The implementation is run with '
+             'its real host modules and with Darwin stand-ins; both runs are validated string-exactly against the model.',
+        note='trusted: as C09; Darwin tables written from the XNU headers (tools/harness/darwin_host.py). The check prints '
+             'KNOWN-FINDING for F17 and alarms on any host-dependence not explained by those five tables',
+        technique='Coq proof (dependency analysis; refutation witness by vm_compute) + two-host correspondence',
+        ref='DESIGN.md §5 C18'),
     'C12': dict(
         text='Coq theorems c12_events/sat_meaning/logs/no_logs_in_events/no_events_in_logs: for EVERY stream and EVERY '
              'configuration the filtered listings equal `filter` of the unfiltered listing by the stated predicate (order and '
